@@ -138,7 +138,9 @@ def eval_api_properties(prop, ctx, records, limit):
                     report("captures_from_pos(t,%d).get(0) = find_from_pos(t,%d)" % (b, b), [f, c], "equal")
             if [x[1:3] if x[0] == "ok" else x for x in fi] != [x[1:3] if x[0] == "ok" else x for x in ci]:
                 report("captures_iter spans = find_iter spans", d["caps_iter"], d["find_iter"])
-        if prop == "C16":
+        if prop == "C16" and "=" not in d["meta"]:
+            report("captures_len / capture_names return normally", d["meta"], "a value")
+        elif prop == "C16":
             m = dict(x.split("=", 1) for x in d["meta"].split(";"))
             ng = sum(1 for tk in info["impl"]["tree"].split(" ") if tk == "G")
             if int(m["len"]) != ng + 1 or int(m["n"]) != ng + 1:
